@@ -40,6 +40,11 @@ claimed = {
    technique='exhaustive enumeration of operation histories x crash points (process stops before/after each store call) on the real Sequence over a store that outlives the objects; stateless model checking of concurrent Next callers',
    text='Every history up to depth 7 (thorough 8) over Next, Release, Restart(interval 1..3), where every Next/Release additionally runs with the process stopping before or after its 1st/2nd store call. Oracle: numbers returned over the whole life of the store strictly increase; the gap between consecutive numbers is at most the sum of the intervals of the objects crashed or abandoned without Release in between and exactly 0 after clean Releases. S: all interleavings of 2-3 threads x 2 Next on one Sequence (intervals 1-3): all numbers distinct, per-caller increasing, restart after Release continues without a gap.',
    note='Trusted: one live Sequence object per key; store calls fail only by the process stopping. One genuine defect repaired (fix: commit).', ref='2 C07'),
+
+ 'C19': dict(cat='exploration', engine='I',
+   technique='exhaustive enumeration of operand spaces against exact arithmetic (complete for 8-bit and, in the thorough tier, 16-bit types; complete cross product of a boundary alphabet for 32/64-bit)',
+   text='SafeAdd/Sub/Mul/Div for every operand pair and SafeLeftShift for every (value, shift 0..255) pair of int8/uint8 (quick and thorough) and int16/uint16 (thorough: all 2^32 pairs; quick: every value against the boundary alphabet in both positions) are compared with int64 arithmetic; for 32/64-bit types, SafeMulUint64, SafeMulInt64 and Safe64MulDiv (triples) the complete cross product of a boundary alphabet (0, +-1..3, min/max+-3, +-2^k(+-1) for every k, sqrt(max)+-1, max/a+-1) is compared with math/big. Representable => exact value and nil error; otherwise exactly the overflow / division-by-zero error.',
+   note='Exhaustive only for the 8/16-bit spaces; 32/64-bit is exhaustive over the stated alphabet, not over all operands (stated in evidence: exhaustive=false for those parts). Three genuine defects repaired (fix: commits).', ref='2 C19'),
 }
 na_reason = 'check not built yet in this round (engine exists; see DESIGN.md section 9 for the order of work)'
 checks = []
